@@ -27,6 +27,15 @@
  *                                 registered anchor.)  Since fix d8f0c4f nothing reads such bits: GC_Mark and GC_Del clear them first
  *   z <id>                        from now on the destructor of object <id> (kind p, q or b) also issues del(NULL), last
  *   N                             del(NULL) issued by the program
+ *   r <id>                        from now on the destructor of object <id> (kind p, q, b or i) raises ValueError at the end of its
+ *                                 body.  An op that an exception leaves prints ` raised` at the end of its O line (known finding
+ *                                 KF-C06-dtor-raises: the rest of the pending list is abandoned)
+ *   kinds T and i:  n <id> T <how> <tslot> - ; …   a run-time Type object, new(Type, "RT", size, New instance, Alloc instance),
+ *                                 placed (calloc is wrapped) at block <tslot> (0..15) of the type region behind the arena;
+ *                   n <id> i <how> <slot> <tid> ; …   an instance of the run-time Type object <tid> (a probe leaf at arena <slot>).
+ *                                 When the memory of a Type object is released while one of its instances has not been released
+ *                                 (known finding KF-C06-type-released-first) the behaviour of the process is undefined from there
+ *                                 on: the op prints `O <op> ub` and the history ends
  *   s | t                         stop / start the collector
  *   e ; <order...>                teardown; the ledger is reported from a destructor-attribute function that runs after
  *                                 Cello_Exit (main) or after join (thread)
@@ -42,6 +51,9 @@
 #define NARENA  16384
 #define MAXID   65536
 #define MAXEV   (1 << 18)
+#define TREGION ((char*)(ARENA + (size_t)NARENA * STRIDE))
+#define TSTRIDE 8192
+#define NTYPES  16
 
 struct Probe { int64_t id; };
 struct QProbe { int64_t id; };
@@ -58,9 +70,20 @@ struct Obj {
   int late_child;           /* registered by a destructor during the teardown sweep (after its phase 1): KF-C06-dtor-alloc */
   int nulldel;              /* its destructor also does del(NULL) */
   int born;                 /* number of the op during which it was allocated */
+  int type_id;              /* kind i: the run-time Type object it is an instance of */
+  int raises;               /* its destructor raises */
+  int raised;               /* … and did */
+  int constructed;          /* its constructor ran (no exception came out of the registration) */
+  int abandoned;            /* it was waiting on the pending list of a sweep that an exception left */
 };
 static struct Obj objs[MAXID];
 static int slot_id[NARENA];
+static int tslot_id[NTYPES];
+static int want_tslot = -1;
+static var want_type = NULL;
+static const char* cur_tag = "?";
+static volatile int* shared_expect = NULL;   /* shared with the parent: the child is expected to end with a failure status */
+static int op_raised = 0, raise_pending = 0, any_raised = 0;
 static int reserved[MAXID];                  /* identity reserved for a child of an allocating destructor */
 static int nobjs_alloc = 0;
 
@@ -87,6 +110,10 @@ static int id_of(var p) {
     if ((c - ARENA) % STRIDE) return -1;
     return slot_id[(c - ARENA) / STRIDE];
   }
+  if (c >= TREGION && c < TREGION + (size_t)NTYPES * TSTRIDE) {
+    if ((c - TREGION) % TSTRIDE != sizeof(struct Header)) return -1;
+    return tslot_id[(c - TREGION) / TSTRIDE];
+  }
   if (nB) for (int i = 0; i < nobjs_alloc; i++) if (objs[i].allocated && objs[i].kind == 'B' && objs[i].ptr == p && objs[i].nfree == 0) return i;
   return -1;
 }
@@ -94,6 +121,7 @@ static int id_of(var p) {
 static void take_snapshot(var self) {
   struct GC* gc = the_gc;
   if (!gc || gc->freenum == 0 || nsnap >= 0 || gc->freelist == NULL) return;
+  if (raise_pending && (cur_tag[0] == 'd' || cur_tag[0] == 'D')) return;   /* the stale list of a sweep that an exception left */
   nsnap = 0; int used_self = 0;
   for (size_t i = 0; i < gc->freenum; i++) {
     var p = gc->freelist[i];
@@ -113,12 +141,13 @@ static void ledger(char c, var self) {
 }
 
 /* ---- probe types (file scope: they must outlive main's frame, Cello_Exit finalises their objects) ---- */
+static var Arena_Alloc_Inst(void); static void maybe_raise(var self);
 static var Arena_Alloc_Probe(void); static var Arena_Alloc_PBox(void); static var Arena_Alloc_Anchor(void); static var Arena_Alloc_QProbe(void);
 static void Arena_Dealloc(var self) { ledger('x', self); }
 static void Probe_New(var self, var args) { struct Probe* p = self; p->id = c_int(get(args, $I(0))); }
 /* the del(NULL) of a destructor declared with op z (GC_Rem_Ptr's NULL guard, fix d3e4e44) */
 static void maybe_del_null(var self) { int id = id_of(self); if (id >= 0 && objs[id].nulldel) del(NULL); }
-static void Probe_Del(var self) { ledger('f', self); maybe_del_null(self); }
+static void Probe_Del(var self) { ledger('f', self); maybe_del_null(self); maybe_raise(self); }
 static void q_alloc_child(int cid, int cslot);
 static void QProbe_Del(var self) {
   ledger('f', self);
@@ -127,9 +156,19 @@ static void QProbe_Del(var self) {
   if (objs[id].nchild > 0) thresholded = 1;
   for (int i = 0; i < objs[id].nchild; i++) q_alloc_child(objs[id].child[i], objs[id].child_slot[i]);
   maybe_del_null(self);
+  maybe_raise(self);
 }
 static void PBox_New(var self, var args) { Box_New(self, args); }
-static void PBox_Del(var self) { ledger('f', self); Box_Del(self); maybe_del_null(self); }
+static void PBox_Del(var self) { ledger('f', self); Box_Del(self); maybe_del_null(self); maybe_raise(self); }
+/* the destructor of an object declared with op r raises */
+static void maybe_raise(var self) {
+  int id = id_of(self);
+  if (id >= 0 && objs[id].raises) {
+    objs[id].raised = 1;
+    if (teardown_started && shared_expect) *shared_expect = 1;    /* nobody catches it: Uncaught ValueError, exit status 1 */
+    throw(ValueError, "the destructor of object %i raises", $I(id));
+  }
+}
 static void Anchor_Del(var self) { ledger('f', self); }
 static void Anchor_Mark(var self, var gc, void(*f)(var,void*)) {
   if (abort_armed) {
@@ -157,10 +196,47 @@ static var Arena_Alloc_Probe(void) { return arena_alloc(Probe, sizeof(struct Pro
 static var Arena_Alloc_QProbe(void) { return arena_alloc(QProbe, sizeof(struct QProbe)); }
 static var Arena_Alloc_PBox(void) { return arena_alloc(PBox, sizeof(struct PBox)); }
 static var Arena_Alloc_Anchor(void) { return arena_alloc(Anchor, sizeof(struct Anchor)); }
+static var Arena_Alloc_Inst(void) { return arena_alloc(want_type, sizeof(struct Probe)); }
+/* the instance objects of the run-time types: in static storage (they outlive everything) */
+static struct { struct Header h; struct New n; } rt_new;
+static struct { struct Header h; struct Alloc a; } rt_alloc;
+static var rt_new_inst = NULL, rt_alloc_inst = NULL;
+static void rt_init(void) {
+  if (rt_new_inst) return;
+  rt_new.n.construct_with = Probe_New; rt_new.n.destruct = Probe_Del;
+  rt_alloc.a.alloc = Arena_Alloc_Inst; rt_alloc.a.dealloc = Arena_Dealloc;
+  rt_new_inst = header_init(&rt_new.h, New, AllocStatic);
+  rt_alloc_inst = header_init(&rt_alloc.h, Alloc, AllocStatic);
+}
 
 /* ---- block accounting for the library's own Box (calloc'ed): link-time --wrap=free ---- */
+void* __real_calloc(size_t n, size_t sz);
+void* __wrap_calloc(size_t n, size_t sz) {
+  if (in_child && want_tslot >= 0 && n * sz > 2048 && n * sz <= TSTRIDE) {
+    char* blk = TREGION + (size_t)want_tslot * TSTRIDE;
+    want_tslot = -1;
+    memset(blk, 0, n * sz);
+    return blk;
+  }
+  return __real_calloc(n, sz);
+}
 void __real_free(void* p);
 void __wrap_free(void* p) {
+  if (p && in_child && (char*)p >= TREGION && (char*)p < TREGION + (size_t)NTYPES * TSTRIDE) {
+    /* the memory of a run-time Type object is released (the block stays mapped) */
+    var self = (char*)p + sizeof(struct Header);
+    int tid = id_of(self);
+    ledger('x', self);
+    for (int i = 0; tid >= 0 && i < nobjs_alloc; i++) {
+      if (objs[i].allocated && objs[i].kind == 'i' && objs[i].type_id == tid && objs[i].nfree == 0) {
+        X("sig=life-type-released-first line=%zu what=the run-time Type object %d was released while its instance %d has not been released: destruct(instance) reads the freed Type", cur_line, tid, i);
+        O("%s ub", cur_tag);
+        fflush(stdout);
+        _exit(0);
+      }
+    }
+    return;
+  }
   if (p && in_child && nB) {
     var self = (char*)p + sizeof(struct Header);
     if (id_of(self) >= 0) { ledger('x', self); nB--; }
@@ -223,8 +299,11 @@ static void print_obs(const char* op, int with_reg) {
     if (bits && !stale_marks) X("sig=life-mark-left line=%zu what=%zu mark bits left set after the op", cur_line, bits);
     if (!bits) stale_marks = 0;
     if (occ != gc->nitems) X("sig=life-nitems line=%zu what=nitems %zu but %zu occupied slots", cur_line, gc->nitems, occ);
-    if (gc->freenum != 0 || gc->freelist != NULL) X("sig=life-pending-left line=%zu what=pending list not released after the op", cur_line);
+    if (gc->freelist == NULL && gc->freenum == 0) raise_pending = 0;
+    else if (raise_pending) X("sig=life-dtor-raised line=%zu what=an exception raised by a destructor left the release loop of GC_Sweep: the pending list (%zu slots) is still set outside a collection", cur_line, gc->freenum);
+    else X("sig=life-pending-left line=%zu what=pending list not released after the op", cur_line);
   }
+  if (op_raised) n += snprintf(obuf + n, sizeof obuf - n, " raised");
   O("%s", obuf);
 }
 
@@ -237,7 +316,7 @@ static void oracle_after_op(void) {
     if (o->nfree > 1 && o->dealloc_registered) { X("sig=KF-C06-dealloc-registered line=%zu what=object %d, released by the program with dealloc while registered, was released again by the collector (%d times in all)", cur_line, id, o->nfree); o->nfree = 1; }
     if (o->nfin > 1) { X("sig=life-double-finalise line=%zu what=object %d finalised %d times", cur_line, id, o->nfin); o->nfin = 1; }
     if (o->nfree > 1) { X("sig=life-double-free line=%zu what=object %d released %d times", cur_line, id, o->nfree); o->nfree = 1; }
-    if (o->kind != 'B' && o->nfree >= 1 && (o->nfin == 0 || o->fin_seq > o->free_seq)) X("sig=life-free-unfinalised line=%zu what=object %d released without having been finalised", cur_line, id);
+    if (o->kind != 'B' && o->kind != 'T' && o->nfree >= 1 && (o->nfin == 0 || o->fin_seq > o->free_seq)) X("sig=life-free-unfinalised line=%zu what=object %d released without having been finalised", cur_line, id);
     if (collecting && marked_now[id] && evs[i].c == 'f') X("sig=life-marked-finalised line=%zu what=collection finalised object %d of its marked set", cur_line, id);
   }
 }
@@ -247,13 +326,21 @@ static void oracle_final(void) {
   for (int id = 0; id < MAXID; id++) {
     struct Obj* o = &objs[id];
     if (!o->allocated) continue;
-    int done = (o->kind == 'B') ? (o->nfree == 1) : (o->nfin == 1 && o->nfree == 1);
+    int done = (o->kind == 'B' || o->kind == 'T') ? (o->nfree == 1) : (o->nfin == 1 && o->nfree == 1);
     if (done) continue;
     left++;
     if (o->stopped_alloc && o->how != 'w')
       X("sig=KF-C06-stopped line=%zu what=object %d allocated with new/new_root while the collector was stopped was never finalised (fin=%d free=%d)", cur_line, id, o->nfin, o->nfree);
     else if (o->stopped_del && o->how == 'r')
       X("sig=KF-C06-stopped line=%zu what=root object %d deleted while the collector was stopped (the del was ignored) was never finalised (fin=%d free=%d)", cur_line, id, o->nfin, o->nfree);
+    else if (o->raised)
+      X("sig=life-dtor-raised line=%zu what=object %d, whose destructor raised, was never released (fin=%d free=%d)", cur_line, id, o->nfin, o->nfree);
+    else if (o->abandoned)
+      X("sig=life-dtor-raised line=%zu what=object %d was waiting on the pending list of a sweep that a destructor's exception left: never finalised (fin=%d free=%d)", cur_line, id, o->nfin, o->nfree);
+    else if (any_raised && o->nfin == 1 && o->nfree == 0)
+      X("sig=life-dtor-raised line=%zu what=an exception raised by a nested destructor passed through the destructor of object %d: never released (fin=%d free=%d)", cur_line, id, o->nfin, o->nfree);
+    else if (any_raised && o->how != 'w' && o->nfin == 0 && o->constructed == 0)
+      X("sig=life-dtor-raised line=%zu what=object %d was being allocated when a destructor's exception came out of the threshold collection: left registered, unconstructed (fin=%d free=%d)", cur_line, id, o->nfin, o->nfree);
     else if (o->clobbered)
       X("sig=KF-C06-dtor-alloc line=%zu what=object %d was waiting on the pending list of a sweep when a destructor's allocation ran a nested collection: never finalised (fin=%d free=%d)", cur_line, id, o->nfin, o->nfree);
     else if (o->late_child)
@@ -284,7 +371,17 @@ static int parse_ids(char** toks, int ntok, int from, int* out, int* nout, int* 
 }
 
 static int op_seq = 0;
-static void begin_op(void) { op_seq++; nev = 0; nsnap = -1; collecting = 0; thresholded = 0; }
+static void begin_op(void) { op_seq++; nev = 0; nsnap = -1; collecting = 0; thresholded = 0; op_raised = 0; }
+/* an exception raised by a destructor arrived in the program during this op */
+static void note_raised(var exc) {
+  if (!exc) return;
+  struct GC* gc = the_gc;
+  op_raised = 1; any_raised = 1;
+  if (gc->freelist != NULL && gc->freenum > 0) {
+    raise_pending = 1;
+    for (size_t i = 0; i < gc->freenum; i++) { int w = gc->freelist[i] ? id_of(gc->freelist[i]) : -1; if (w >= 0) objs[w].abandoned = 1; }
+  }
+}
 
 /* new(Probe) issued by the destructor of a kind-q object */
 __attribute__((noinline)) static void q_alloc_child(int cid, int cslot) {
@@ -329,15 +426,20 @@ __attribute__((noinline)) static int do_new(int id, char kind, char how, int slo
   struct Obj* o = &objs[id];
   if (o->allocated || reserved[id]) return 0;
   if (kind != 'B') { if (slot < 0 || slot >= NARENA) return 0; }
+  int tid = -1;
+  if (kind == 'T') { if (slot >= NTYPES || owned >= 0) return 0; }
+  if (kind == 'i') { if (owned < 0 || !objs[owned].allocated || objs[owned].kind != 'T' || objs[owned].nfree > 0) return 0; tid = owned; owned = -1; }
   if (owned >= 0 && (!objs[owned].allocated || kind == 'p' || kind == 'q' || kind == 'a')) return 0;
   memset(o, 0, sizeof *o);
-  o->kind = kind; o->how = how; o->slot = slot; o->owned = owned; o->owner = -1; o->allocated = 1; o->born = op_seq;
+  o->kind = kind; o->how = how; o->slot = slot; o->owned = owned; o->owner = -1; o->allocated = 1; o->born = op_seq; o->type_id = tid;
   if (owned >= 0) objs[owned].owner = id;
   o->stopped_alloc = !gc->running;
   if (kind == 'B') nB++;
   if (id + 1 > nobjs_alloc) nobjs_alloc = id + 1;
-  var type = kind == 'p' ? Probe : kind == 'q' ? QProbe : kind == 'b' ? PBox : kind == 'B' ? Box : Anchor;
-  if (kind != 'B') { want_slot = slot; slot_id[slot] = id; o->ptr = ARENA + (size_t)slot * STRIDE; }
+  var type = kind == 'p' ? Probe : kind == 'q' ? QProbe : kind == 'b' ? PBox : kind == 'B' ? Box : kind == 'T' ? Type : kind == 'i' ? objs[tid].ptr : Anchor;
+  if (kind == 'T') { rt_init(); want_tslot = slot; tslot_id[slot] = id; o->ptr = TREGION + (size_t)slot * TSTRIDE + sizeof(struct Header); }
+  else if (kind != 'B') { want_slot = slot; slot_id[slot] = id; o->ptr = ARENA + (size_t)slot * STRIDE; }
+  if (kind == 'i') want_type = type;
   /* GC_Set will run GC_Mark + GC_Sweep when nitems exceeds mitems.  Which *garbage* that collection reclaims depends on
      stale words in the frames of GC_Set's earlier callees (GC_Set_Ptr's displaced entries end up in the red zones of
      GC_Mark's frame, which the conservative stack scan reads): it may keep some of it.  The harness therefore completes
@@ -346,20 +448,39 @@ __attribute__((noinline)) static int do_new(int id, char kind, char how, int slo
   int will_collect = how != 'w' && gc->running && gc->nitems + 1 > gc->mitems;
   var saved = gc->bottom; gc->bottom = &bottom_marker;
   scrub_stack();
-  volatile var p;   /* volatile: the only copy of the new address in this frame is cleared below */
+  volatile var p = NULL;   /* volatile: the only copy of the new address in this frame is cleared below */
+  var exc = NULL;
+  try {
   if (via_alloc) {
     /* the alloc route: alloc / alloc_root / alloc_raw, then the constructor */
     p = how == 's' ? alloc(type) : how == 'r' ? alloc_root(type) : alloc_raw(type);
-    if (kind == 'p' || kind == 'q') construct_with(p, tuple($I(id)));
+    if (kind == 'p' || kind == 'q' || kind == 'i') construct_with(p, tuple($I(id)));
     else if (kind == 'a') construct_with(p, tuple());
+    else if (kind == 'T') construct_with(p, tuple($S("RT"), $I(sizeof(struct Probe)), rt_new_inst, rt_alloc_inst));
     else construct_with(p, tuple($R(owned >= 0 ? objs[owned].ptr : NULL)));
-  } else if (kind == 'p' || kind == 'q') {
+  } else if (kind == 'p' || kind == 'q' || kind == 'i') {
     p = how == 's' ? new_with(type, tuple($I(id))) : how == 'r' ? new_root_with(type, tuple($I(id))) : new_raw_with(type, tuple($I(id)));
   } else if (kind == 'a') {
     p = how == 's' ? new(Anchor) : how == 'r' ? new_root(Anchor) : new_raw(Anchor);
+  } else if (kind == 'T') {
+    p = how == 's' ? new_with(Type, tuple($S("RT"), $I(sizeof(struct Probe)), rt_new_inst, rt_alloc_inst))
+      : how == 'r' ? new_root_with(Type, tuple($S("RT"), $I(sizeof(struct Probe)), rt_new_inst, rt_alloc_inst))
+      : new_raw_with(Type, tuple($S("RT"), $I(sizeof(struct Probe)), rt_new_inst, rt_alloc_inst));
   } else {
     var tgt = owned >= 0 ? objs[owned].ptr : NULL;
     p = how == 's' ? new_with(type, tuple($R(tgt))) : how == 'r' ? new_root_with(type, tuple($R(tgt))) : new_raw_with(type, tuple($R(tgt)));
+  }
+  o->constructed = 1;
+  } catch (e_) { exc = e_; }
+  want_tslot = -1;
+  if (exc) {
+    /* a destructor run by the threshold collection of this registration raised: the exception came out of alloc, the
+       constructor did not run, the object stays registered (no second collection: the release loop was left) */
+    note_raised(exc);
+    thresholded = 1;
+    gc->bottom = saved;
+    p = NULL;
+    return 1;
   }
   if (will_collect) {
     thresholded = 1; stale_marks = 0;
@@ -369,7 +490,7 @@ __attribute__((noinline)) static int do_new(int id, char kind, char how, int slo
     GC_Sweep(gc);
   }
   gc->bottom = saved;
-  if (kind != 'B' && p != o->ptr) { X("sig=life-arena line=%zu what=arena address mismatch", cur_line); }
+  if (kind != 'B' && p != o->ptr) { X("sig=life-arena line=%zu what=arena address mismatch (kind %c)", cur_line, kind); }
   o->ptr = p;
   p = NULL;
   return 1;
@@ -461,10 +582,12 @@ __attribute__((noinline)) static void do_mark_abort(int* ids, int n) {
 }
 
 static char** hist; static size_t hist_n; static size_t* hist_line;
+static var main_bottom = NULL;
 
 /* runs the ops of the current history up to and including `e`; returns 1 if `e` was reached */
 static int run_history(void) {
   the_gc = current(GC);
+  main_bottom = the_gc->bottom;
   static char* toks[4096]; static int ids[4096], ids2[4096];
   for (size_t li = 0; li < hist_n; li++) {
     cur_line = hist_line[li];
@@ -481,7 +604,8 @@ static int run_history(void) {
     if ((strcmp(toks[0], "n") == 0 || strcmp(toks[0], "a") == 0) && ntok >= 6) {
       char* e1; long id = strtol(toks[1], &e1, 10); char* e2; long slot = strtol(toks[4], &e2, 10);
       long owned = -1; int ok = !*e1 && !*e2 && id >= 0 && id < MAXID && strlen(toks[2]) == 1 && strlen(toks[3]) == 1
-        && strchr("pqbBa", toks[2][0]) && strchr("srw", toks[3][0]);
+        && strchr("pqbBaTi", toks[2][0]) && strchr("srw", toks[3][0]);
+      cur_tag = toks[0][0] == 'a' ? "a" : "n";
       if (ok && strcmp(toks[5], "-") != 0) { char* e3; owned = strtol(toks[5], &e3, 10); ok = !*e3 && owned >= 0 && owned < MAXID; }
       if (ok && ntok > 6) ok = strcmp(toks[6], ";") == 0 && parse_ids(toks, ntok, 7, ids2, &n2, &nx);
       if (!ok || !do_new((int)id, toks[2][0], toks[3][0], (int)slot, (int)owned, toks[0][0] == 'a')) { O("bad-op"); continue; }
@@ -489,12 +613,14 @@ static int run_history(void) {
     } else if (strcmp(toks[0], "d") == 0 && ntok == 3 && strlen(toks[2]) == 1 && strchr("srw", toks[2][0])) {
       char* e1; long id = strtol(toks[1], &e1, 10);
       if (*e1 || id < 0 || id >= MAXID || !objs[id].allocated || objs[id].ptr == NULL) { O("bad-op"); continue; }
-      do_del((int)id, toks[2][0]);
+      cur_tag = "d";
+      { var exc; V_TRY(exc, do_del((int)id, toks[2][0])); note_raised(exc); }
       oracle_after_op(); print_obs("d", 1);
     } else if (strcmp(toks[0], "D") == 0 && ntok == 3 && strlen(toks[2]) == 1 && strchr("srw", toks[2][0])) {
       char* e1; long id = strtol(toks[1], &e1, 10);
       if (*e1 || id < 0 || id >= MAXID || !objs[id].allocated || objs[id].ptr == NULL || objs[id].kind == 'B') { O("bad-op"); continue; }
-      do_dealloc((int)id, toks[2][0]);
+      cur_tag = "D";
+      { var exc; V_TRY(exc, do_dealloc((int)id, toks[2][0])); note_raised(exc); }
       oracle_after_op(); print_obs("D", 1);
     } else if (strcmp(toks[0], "q") == 0 && ntok >= 2 && ntok % 2 == 0 && ntok <= 2 + 2 * MAXCHILD) {
       char* e1; long id = strtol(toks[1], &e1, 10);
@@ -519,12 +645,14 @@ static int run_history(void) {
       print_obs("o", 1);
     } else if (strcmp(toks[0], "c") == 0) {
       if (!parse_ids(toks, ntok, 1, ids, &n1, &nx) || !parse_ids(toks, ntok, nx, ids2, &n2, &nx)) { O("bad-op"); continue; }
-      do_collect(ids, n1);
+      cur_tag = "c";
+      { var exc; V_TRY(exc, do_collect(ids, n1)); note_raised(exc); }
       oracle_after_op(); print_obs("c", 1);
     } else if (strcmp(toks[0], "g") == 0) {
       if (!parse_ids(toks, ntok, 1, ids, &n1, &nx) || n1 != 0 || !parse_ids(toks, ntok, nx, ids2, &n2, &nx)) { O("bad-op"); continue; }
-      do_gc();
-      oracle_after_op(); oracle_after_gc(); print_obs("g", 1);
+      cur_tag = "g";
+      { var exc; V_TRY(exc, do_gc()); note_raised(exc); if (exc) the_gc->bottom = main_bottom; }
+      oracle_after_op(); if (!op_raised) oracle_after_gc(); print_obs("g", 1);
     } else if (strcmp(toks[0], "k") == 0) {
       if (!parse_ids(toks, ntok, 1, ids, &n1, &nx)) { O("bad-op"); continue; }
       int ok = 1; for (int i = 0; i < n1; i++) if (!objs[ids[i]].allocated) ok = 0;
@@ -544,6 +672,11 @@ static int run_history(void) {
       if (*e1 || id < 0 || id >= MAXID || !objs[id].allocated || !objs[id].kind || !strchr("pqb", objs[id].kind)) { O("bad-op"); continue; }
       objs[id].nulldel = 1;
       print_obs("z", 1);
+    } else if (strcmp(toks[0], "r") == 0 && ntok == 2) {
+      char* e1; long id = strtol(toks[1], &e1, 10);
+      if (*e1 || id < 0 || id >= MAXID || !objs[id].allocated || !objs[id].kind || !strchr("pqbi", objs[id].kind)) { O("bad-op"); continue; }
+      objs[id].raises = 1;
+      print_obs("r", 1);
     } else if (strcmp(toks[0], "N") == 0 && ntok == 1) {
       del(NULL);
       oracle_after_op(); print_obs("N", 1);
@@ -554,6 +687,7 @@ static int run_history(void) {
     } else if (strcmp(toks[0], "e") == 0) {
       if (!parse_ids(toks, ntok, 1, ids, &n1, &nx) || n1 != 0 || !parse_ids(toks, ntok, nx, ids2, &n2, &nx)) { O("bad-op"); continue; }
       begin_op();
+      cur_tag = "e";
       teardown_started = 1;
       return 1;
     } else { O("bad-op"); }
@@ -565,6 +699,12 @@ static void report_teardown(void) {
   if (reported) return;
   reported = 1;
   collecting = 0;
+  if (!threaded && shared_expect && *shared_expect) {
+    /* a destructor's exception came out of GC_Del: nobody caught it (the collector was not freed) */
+    struct GC* gc = the_gc;
+    op_raised = 1; any_raised = 1;
+    for (size_t i = 0; i < gc->freenum; i++) { int w = gc->freelist[i] ? id_of(gc->freelist[i]) : -1; if (w >= 0) objs[w].abandoned = 1; }
+  }
   oracle_after_op();
   print_obs("e", 0);
   oracle_final();
@@ -597,7 +737,10 @@ int main(int argc, char** argv) {
   v_init();
   if (argc < 2) { fprintf(stderr, "usage: h_life <opfile>\n"); return 2; }
   size_t n; char** lines = v_read_lines(argv[1], &n);
-  char* base = mmap(ARENA - 4096, (size_t)NARENA * STRIDE + 4096, PROT_READ | PROT_WRITE, MAP_PRIVATE | MAP_ANONYMOUS | MAP_FIXED_NOREPLACE, -1, 0);
+  shared_expect = mmap(NULL, 4096, PROT_READ | PROT_WRITE, MAP_SHARED | MAP_ANONYMOUS, -1, 0);
+  if (shared_expect == MAP_FAILED) { perror("mmap shared"); return 2; }
+  for (int i = 0; i < NTYPES; i++) tslot_id[i] = -1;
+  char* base = mmap(ARENA - 4096, (size_t)NARENA * STRIDE + 4096 + (size_t)NTYPES * TSTRIDE, PROT_READ | PROT_WRITE, MAP_PRIVATE | MAP_ANONYMOUS | MAP_FIXED_NOREPLACE, -1, 0);
   if (base != ARENA - 4096) { perror("mmap arena"); return 2; }
   for (int i = 0; i < NARENA; i++) slot_id[i] = -1;
   hist = malloc(n * sizeof(char*)); hist_line = malloc(n * sizeof(size_t));
@@ -618,10 +761,12 @@ int main(int argc, char** argv) {
     nhist++;
     O("H %s %s", mode, ord);
     fflush(stdout);
+    *shared_expect = 0;
     pid_t pid = fork();
     if (pid == 0) { alarm(60); child_main(); _exit(0); }
     int st = 0; waitpid(pid, &st, 0);
     if (WIFSIGNALED(st)) X("sig=life-crash line=%zu what=history terminated by signal %d", hline, WTERMSIG(st));
+    else if (WEXITSTATUS(st) != 0 && *shared_expect) I("history exited with status %d after a destructor's exception nobody caught at teardown (known finding KF-C06-dtor-raises)", WEXITSTATUS(st));
     else if (WEXITSTATUS(st) != 0) X("sig=life-crash line=%zu what=history exited with status %d (97 = AddressSanitizer, 98 = UBSan)", hline, WEXITSTATUS(st));
   }
   I("histories=%zu", nhist);
